@@ -27,6 +27,10 @@ def headers_for(rng, alg, kind):
     extra = rng.choice([{}, {"typ": "JWT"}, {"kid": "k-1"}, {"cty": "x", "typ": "é"}, {"x5c": ["a"]}])
     if rng.random() < 0.2:
         extra = copy.deepcopy(rng.choice(J.rich_headers()))
+    if b64 and rng.random() < 0.35:
+        # "crit" naming b64 together with other (present, understood) parameters, in either order; b64 true as well as false
+        extra = dict(extra, cty=extra.get("cty", "crit-cty"))
+        b64 = {"b64": rng.choice([False, False, True]), "crit": rng.choice([["b64", "cty"], ["cty", "b64"], ["b64", "cty", "b64"]])}
     prot = {"alg": alg, **b64, **extra}
     unprot = None
     if kind in ("flat", "general", "j7797") and rng.random() < 0.5:
